@@ -459,6 +459,35 @@ func checkSamples(c *Checker, sent, received, update *ssa.Function, fSentTimes, 
 				nIns++
 				c.decide(resentIs(in.Block(), false), "TMO-3", "Sent|sample-insert", instrPos(in), "a DATA sample is recorded only under !resent",
 					"a round-trip sample is recorded for a retransmitted packet: the timeout would be computed from an ambiguous sample")
+				// ... and unconditionally there, with the time of THIS send: the only facts on the way are
+				// the static-mode test, the packet type and the resent flag. A sample that is kept when the
+				// sequence number is reused (window wrapped, own ACK lost) measures from the old packet.
+				extra := ""
+				for _, f := range factsAt(in.Block()) {
+					switch x := f.Cond.(type) {
+					case *ssa.Parameter:
+						continue // resent
+					case *ssa.Extract:
+						if _, isTA := x.Tuple.(*ssa.TypeAssert); isTA {
+							continue
+						}
+					case *ssa.UnOp:
+						if x.Op == token.MUL {
+							if fa, ok := x.X.(*ssa.FieldAddr); ok && structFieldOf(fa).Name() == "useStaticTimeout" {
+								continue
+							}
+						}
+					}
+					extra = w.canonFB(f.Cond)
+				}
+				fresh := false
+				for _, v := range expandValues(in.Value) {
+					if call, ok := v.(*ssa.Call); ok && staticCalleeIs(call.Common(), "time", "", "Now") && call.Parent() == sent {
+						fresh = true
+					}
+				}
+				c.decide(extra == "" && fresh, "TMO-3", "Sent|sample-insert is unconditional and fresh", instrPos(in), "every first transmission overwrites the sample of its sequence number with time.Now() of this call",
+					"the sample of a first transmission is not always overwritten with the current time (extra condition: "+extra+", value is this call's time.Now(): "+fmt.Sprint(fresh)+"): a reused sequence number is measured from the previous packet's send time")
 			}
 		case *ssa.Call:
 			if b, ok := in.Call.Value.(*ssa.Builtin); ok && b.Name() == "delete" && isLoadOfField(in.Call.Args[0], fSentTimes) {
